@@ -143,7 +143,20 @@ def tokenizeAux : Bytes → TokSt → Nat → TokSt
     let r := tstep 6 s c rest
     tokenizeAux rest r.1 r.2
 
-/-- The start-tag names an HTML tokenizer emits for `input`, in order. -/
-def startTags (input : Bytes) : List Bytes := (tokenizeAux input {} 0).out.reverse
+/-- §13.2.3.5 "Preprocessing the input stream": newlines are normalised before tokenization —
+    every CR LF pair becomes LF, every remaining CR becomes LF. -/
+def normalizeNewlines : Bytes → Bytes
+  | [] => []
+  | [c] => if c == 0x0D then [0x0A] else [c]
+  | c :: d :: rest =>
+    if c == 0x0D then
+      if d == 0x0A then 0x0A :: normalizeNewlines rest else 0x0A :: normalizeNewlines (d :: rest)
+    else c :: normalizeNewlines (d :: rest)
+
+/-- The tokenizer proper, on an already preprocessed stream. -/
+def startTagsRaw (input : Bytes) : List Bytes := (tokenizeAux input {} 0).out.reverse
+
+/-- The start-tag names an HTML tokenizer emits for `input`, in order (preprocessing, then tokenization). -/
+def startTags (input : Bytes) : List Bytes := startTagsRaw (normalizeNewlines input)
 
 end CM.Spec
